@@ -642,7 +642,15 @@ func (ex *Exec) autoAxioms(inner *SpecEnv, sf *SpecFunc, fname string) {
 	}
 	for _, k := range sortedKeys(ex.prog.cs.Lemmas) {
 		lm := ex.prog.cs.Lemmas[k]
-		if !lm.Auto || lm.PkgPath != sf.PkgPath || !mentionsCall(lm.Body, sf.Name) || ex.autoDone[k] {
+		if !lm.Auto || ex.autoDone[k] {
+			continue
+		}
+		// an axiom of the spec function's own package that calls it, or an axiom elsewhere that calls it qualified
+		last := sf.PkgPath
+		if i := strings.LastIndex(last, "/"); i >= 0 {
+			last = last[i+1:]
+		}
+		if !(lm.PkgPath == sf.PkgPath && mentionsCall(lm.Body, sf.Name)) && !(lm.PkgPath != sf.PkgPath && lm.Axiom && mentionsQualifiedCall(lm.Body, last, sf.Name)) {
 			continue
 		}
 		if !lm.Axiom && ex.provingLemma != nil && (lm.File != ex.provingLemma.File || lm.Line >= ex.provingLemma.Line) {
